@@ -323,15 +323,29 @@ class Models:
         A(r'^core::str::<impl str>::contains::<char>$', self.m_contains_char)
         A(r'^core::str::<impl str>::contains::<\[char; \d+\]>$', self.m_contains_chars)
         A(r'^core::str::<impl str>::find::<char>$', self.m_find_char)
+        A(r'^core::str::<impl str>::find::<\[char; \d+\]>$', self.m_find_chars)
+        A(r'^<(std::str::)?Chars<\'_> as Iterator>::skip$', self.m_chars_skip)
+        A(r'^<(std::iter::)?Skip<(std::str::)?Chars<\'_>> as Iterator>::next$', self.m_chars_next)
+        A(r'^<(std::iter::)?Skip<(std::str::)?Chars<\'_>> as IntoIterator>::into_iter$', lambda ex, c, a: a[0])
+        A(r'^core::str::<impl str>::contains::<&str>$', self.m_contains_str)
+        A(r'^(alloc|std)::str::<impl str>::replace::<&str>$', self.m_str_replace)
+        A(r'^std::option::Option::<.*>::take$', self.m_opt_take)
+        A(r'^std::option::Option::<.*>::is_some$', lambda ex, c, a: ex.deref(a[0]).variant == 'Some')
+        A(r'^std::option::Option::<.*>::is_none$', lambda ex, c, a: ex.deref(a[0]).variant == 'None')
         A(r'^core::str::<impl str>::starts_with::<&str>$', self.m_starts_with)
         A(r'^core::str::<impl str>::strip_prefix::<&str>$', self.m_strip_prefix)
         A(r'^core::str::<impl str>::strip_prefix::<char>$', self.m_strip_prefix)
+        A(r'^core::str::<impl str>::strip_prefix::<&std::string::String>$', self.m_strip_prefix)
+        A(r'^core::str::<impl str>::strip_suffix::<(&str|&std::string::String)>$', self.m_strip_suffix)
+        A(r'^core::str::<impl str>::starts_with::<char>$', self.m_starts_with_char)
         A(r'^core::str::<impl str>::bytes$', lambda ex, c, a: Iter('bytes', to_slice(ex, a[0]), 0))
         A(r'^<std::str::Bytes<\'_> as Iterator>::(all|any)::<', self.m_bytes_all_any)
         A(r'^core::str::<impl str>::trim(_start|_end)?$', self.m_str_trim)
         A(r'^core::str::<impl str>::chars$', lambda ex, c, a: Iter('chars', to_slice(ex, a[0]), 0))
         A(r'^<&smallvec::SmallVec<.*> as IntoIterator>::into_iter$', lambda ex, c, a: Iter('slice', self.any_slice(ex, a[0]), 0))
+        A(r'^<&Vec<.*> as IntoIterator>::into_iter$', lambda ex, c, a: Iter('slice', self.any_slice(ex, a[0]), 0))
         A(r'^<.* as IntoIterator>::into_iter$', lambda ex, c, a: a[0])
+        A(r'^<std::ops::Range<usize> as Iterator>::next$', self.m_range_next)
         A(r'^<Chars<\'_> as Iterator>::next$', self.m_chars_next)
         A(r'^<(?:Chars<\'_>|std::str::Bytes<\'_>|(?:std|core)::slice::Iter<\'_, .*>) as Iterator>::try_fold::<', self.m_try_fold)
         A(r'^core::str::<impl str>::split::<char>$', lambda ex, c, a: Iter('split', to_slice(ex, a[0]), 0, dict(ch=a[1], done=False)))
@@ -347,6 +361,7 @@ class Models:
         A(r'^<(?:std|core)::slice::Split<.*> as Iterator>::(all|any)::<', self.m_split_all_any)
         A(r'^<(?:std|core)::slice::Split<.*> as Iterator>::count$', lambda ex, c, a: usize(len(self.m_split_collect(ex, c, a).items)))
         A(r'^Vec::<.*>::len$', lambda ex, c, a: usize(len(ex.deref(a[0]).items)))
+        A(r'^<Vec<std::string::String> as Deref(Mut)?>::deref(_mut)?$', lambda ex, c, a: a[0])
         A(r'^<Vec<.*> as Deref>::deref$', lambda ex, c, a: Slice(list(ex.deref(a[0]).items), 0, len(ex.deref(a[0]).items), False))
         A(r'^core::slice::<impl \[.*\]>::iter$', lambda ex, c, a: Iter('slice', self.any_slice(ex, a[0]), 0))
         A(r'^<(?:std|core)::slice::Iter<\'_, .*> as Iterator>::enumerate$', lambda ex, c, a: Iter('enumerate', a[0].slice, a[0].pos, dict(base=a[0].pos)))
@@ -415,6 +430,10 @@ class Models:
         A(r'^<(str|std::string::String|Cow<\'_, str>) as ToString>::to_string$', lambda ex, c, a: Str(as_bytes_list(ex, a[0])))
         A(r'^<std::string::String as Clone>::clone$', lambda ex, c, a: Str(as_bytes_list(ex, a[0])))
         A(r'^<std::string::String as From<&str>>::from$', lambda ex, c, a: Str(as_bytes_list(ex, a[0])))
+        A(r"^<Cow<'_, str> as Into<std::string::String>>::into$", lambda ex, c, a: Str(as_bytes_list(ex, a[0].fields[0])))
+        A(r"^<Cow<'_, str> as From<std::string::String>>::from$", lambda ex, c, a: Agg('Cow', 'Owned', [a[0]]))
+        A(r"^<Cow<'_, str> as From<&str>>::from$", lambda ex, c, a: Agg('Cow', 'Borrowed', [a[0]]))
+        A(r"^<Cow<'_, str> as AsRef<str>>::as_ref$", lambda ex, c, a: to_slice(ex, ex.deref(a[0]).fields[0], True))
         A(r'^<Cow<\'_, str> as Deref>::deref$', lambda ex, c, a: to_slice(ex, ex.deref(a[0]).fields[0], True))
         A(r'^<Cow<\'_, str> as From<&str>>::from$', lambda ex, c, a: Agg('Cow', 'Borrowed', [a[0]]))
         A(r'^Cow::<\'_, str>::into_owned$', lambda ex, c, a: Str(as_bytes_list(ex, a[0].fields[0])))
@@ -469,6 +488,8 @@ class Models:
         A(r'^<parking_lot::lock_api::RwLock(Read|Write)Guard<.*> as Deref(Mut)?>::deref(_mut)?$', lambda ex, c, a: ex.deref(a[0]).fields[0])
         A(r'^Duration::from_millis$|^std::time::Duration::from_millis$', lambda ex, c, a: Opaque('Duration'))
         A(r'^<Element as Clone>::clone$', lambda ex, c, a: ex.deref(a[0]))
+        self.add(r'^<&?(Weak)?Element as PartialEq>::(eq|ne)$', self.m_element_ptr_eq, prefer=True)   # pointer identity of the Arc / Weak
+        A(r'^<std::option::Option<Element> as Clone>::clone$', lambda ex, c, a: ex.deref(a[0]))
         A(r'^<CharacterData as Clone>::clone$', self.m_clone_cdata)
         A(r'^<&smallvec::SmallVec<.*> as IntoIterator>::into_iter$', lambda ex, c, a: Iter('slice', self.any_slice(ex, a[0]), 0))
         A(r'^smallvec::SmallVec::<.*>::len$', lambda ex, c, a: usize(len(ex.deref(a[0]).items)))
@@ -481,8 +502,26 @@ class Models:
         # ---------------- containers that are only appended to / scanned ----------------
         A(r'^Vec::<.*>::push$', self.m_vec_push)
         A(r'^Vec::<.*>::new$', lambda ex, c, a: VecV())
+        A(r'^Vec::<.*>::append$', self.m_vec_append)
+        A(r'^Vec::<.*>::swap_remove$', self.m_vec_swap_remove)
+        A(r'^<std::vec::IntoIter<.*> as Iterator>::next$', self.m_vec_into_iter_next)
+        A(r'^core::slice::<impl \[std::string::String\]>::reverse$', self.m_strings_reverse)
+        A(r'^std::slice::<impl \[std::string::String\]>::join::<&str>$', self.m_strings_join)
+        A(r'^Vec::<(?!u8>).*>::is_empty$', lambda ex, c, a: len(ex.deref(a[0]).items) == 0)
+        A(r'^Vec::<(?!u8>).*>::len$', lambda ex, c, a: usize(len(ex.deref(a[0]).items)))
+        A(r'^<smallvec::SmallVec<.*> as std::ops::Index<usize>>::index$', self.m_smallvec_index)
+        A(r'^<smallvec::SmallVec<.*> as (std::ops::)?IndexMut<usize>>::index_mut$', self.m_smallvec_index_mut)
+        A(r'^<autosar_data_specification::AutosarVersion as PartialOrd>::(lt|le|gt|ge)$', self.m_version_ord)
+        A(r'^<Vec<usize> as PartialEq>::(eq|ne)$', self.m_vec_usize_eq)
+        A(r'^<&?\[usize\] as PartialEq>::(eq|ne)$', self.m_vec_usize_eq)
+        A(r'^<Vec<usize> as std::ops::Index<.*>>::index$', lambda ex, c, a: self.m_index_range(ex, c, [self.any_slice(ex, a[0]), a[1]]))
+        A(r'^<std::option::Option<autosar_data_specification::(ElementName|AttributeName|EnumItem)> as PartialEq>::(eq|ne)$', self.m_opt_int_eq)
+        A(r'^<Vec<usize> as Ord>::cmp$', self.m_vec_usize_cmp)
         A(r'^smallvec::SmallVec::<.*>::new$', lambda ex, c, a: VecV(ty='SmallVec'))
         A(r'^smallvec::SmallVec::<.*>::push$', self.m_vec_push)
+        A(r'^smallvec::SmallVec::<.*>::insert$', self.m_vec_insert)
+        A(r'^smallvec::SmallVec::<.*>::remove$', self.m_vec_remove)
+        A(r'^smallvec::SmallVec::<.*>::clear$', self.m_vec_clear)
         A(r'^<smallvec::SmallVec<.*> as Deref>::deref$', lambda ex, c, a: Slice(list(ex.deref(a[0]).items), 0, len(ex.deref(a[0]).items), False))
         A(r'^<std::path::PathBuf as Clone>::clone$', lambda ex, c, a: Opaque('PathBuf'))
         A(r'^core::panicking::|^std::rt::begin_panic|^core::option::unwrap_failed|^core::result::unwrap_failed|^core::option::expect_failed|^core::slice::index::|^core::str::slice_error_fail', self.m_panic)
@@ -578,6 +617,27 @@ class Models:
             return False
         return z3.simplify(z3.Or(*[b == ch for b in sl.items()]))
 
+    def m_find_chars(self, ex, c, a):
+        """str::find([char; N]): byte offset of the first character that is one of the (ASCII) patterns"""
+        sl = to_slice(ex, a[0])
+        pats = [x.conc() for x in a[1].fields]
+        if any(p is None or p >= 0x80 for p in pats):
+            raise Unsupported('find([char]) with a non-ASCII / symbolic pattern')
+        for i, b in enumerate(sl.items()):
+            if ex.decide(z3.Or(*[b == p for p in pats])):
+                return some(usize(i))
+        return NONE()
+
+    def m_chars_skip(self, ex, c, a):
+        """Chars::skip(n): n CHARACTERS are consumed (lazily in std; eagerly here - the result is the same iterator state)"""
+        it = a[0]
+        n = ex.concretize(a[1])
+        it = Iter('chars', it.slice, it.pos)
+        for _ in range(n):
+            if self.m_chars_next(ex, c, [Ref(Cell(it))]).variant == 'None':
+                break
+        return it
+
     def m_contains_chars(self, ex, c, a):
         sl = to_slice(ex, a[0])
         pats = [x.conc() for x in a[1].fields]
@@ -586,6 +646,58 @@ class Models:
         if sl.len == 0:
             return False
         return z3.simplify(z3.Or(*[b == p for b in sl.items() for p in pats]))
+
+    def store(self, ex, r, val):
+        """write val through a reference (the pointee is REPLACED, shared values are not mutated)"""
+        if not isinstance(r, Ref):
+            raise Unsupported(f'store through {r!r}')
+        if not r.path:
+            r.cell.v = val
+            return
+        v = r.cell.v
+        for pe in r.path[:-1]:
+            v = ex.proj(v, pe)
+        last = r.path[-1]
+        if last[0] in ('f', 'i') and isinstance(v, Agg):
+            v.fields[last[1]] = val
+            return
+        raise Unsupported(f'store through {last} into {v!r}')
+
+    def m_opt_take(self, ex, c, a):
+        cur = ex.deref(a[0])
+        self.store(ex, a[0], NONE())
+        return cur
+
+    def _match_at(self, ex, hay, pat, i):
+        return ex.decide(bytes_eq(hay[i:i + len(pat)], pat))
+
+    def m_contains_str(self, ex, c, a):
+        hay = to_slice(ex, a[0]).items()
+        pat = as_bytes_list(ex, a[1])
+        if len(pat) == 0:
+            return True
+        for i in range(0, len(hay) - len(pat) + 1):
+            if self._match_at(ex, hay, pat, i):
+                return True
+        return False
+
+    def m_str_replace(self, ex, c, a):
+        """str::replace(from, to): non-overlapping matches from the left (from must be non-empty here)"""
+        hay = to_slice(ex, a[0]).items()
+        pat = as_bytes_list(ex, a[1])
+        to = as_bytes_list(ex, a[2])
+        if len(pat) == 0:
+            raise Unsupported('str::replace with an empty pattern')
+        out = []
+        i = 0
+        while i < len(hay):
+            if i + len(pat) <= len(hay) and self._match_at(ex, hay, pat, i):
+                out.extend(to)
+                i += len(pat)
+            else:
+                out.append(hay[i])
+                i += 1
+        return Str(out)
 
     def m_find_char(self, ex, c, a):
         sl = to_slice(ex, a[0])
@@ -615,6 +727,24 @@ class Models:
         if ex.decide(bytes_eq(sl.items()[:len(pat)], pat)):
             return some(sl.sub(len(pat), sl.len))
         return NONE()
+
+    def m_strip_suffix(self, ex, c, a):
+        sl = to_slice(ex, a[0])
+        pat = as_bytes_list(ex, a[1])
+        if len(pat) > sl.len:
+            return NONE()
+        if ex.decide(bytes_eq(sl.items()[sl.len - len(pat):], pat)):
+            return some(sl.sub(0, sl.len - len(pat)))
+        return NONE()
+
+    def m_starts_with_char(self, ex, c, a):
+        sl = to_slice(ex, a[0])
+        ch = a[1].conc()
+        if ch is None or ch >= 0x80:
+            raise Unsupported('starts_with(char) with a non-ASCII / symbolic pattern')
+        if sl.len == 0:
+            return False
+        return z3.simplify(sl.items()[0] == ch)
 
     def m_chars_next(self, ex, c, a):
         it = ex.deref(a[0])
@@ -887,6 +1017,85 @@ class Models:
             return ok(usize(base))
         return err(usize(base + (1 if o.variant == 'Less' else 0)))
 
+    def m_smallvec_index(self, ex, c, a):
+        sl = self.any_slice(ex, a[0])
+        i = ex.concretize(a[1])
+        if i >= sl.len:
+            raise Panic('index out of bounds')
+        return ElemRef(sl, i)
+
+    def m_element_ptr_eq(self, ex, c, a):
+        def arc_cell(v):
+            while isinstance(v, (Ref, ElemRef)):
+                v = ex.deref(v)
+            return v.fields[0].fields[0].cell      # Element(Arc(ref)) and WeakElement(Weak(ref)) have the same shape
+        same = arc_cell(a[0]) is arc_cell(a[1])
+        return same == c.endswith('eq')
+
+    def _usize_items(self, ex, v):
+        while isinstance(v, (Ref, ElemRef)):
+            v = ex.deref(v)
+        return [x for x in (v.items if isinstance(v, VecV) else v.items())]
+
+    def m_vec_usize_eq(self, ex, c, a):
+        x, y = self._usize_items(ex, a[0]), self._usize_items(ex, a[1])
+        if len(x) != len(y):
+            r = False
+        else:
+            conds = [z3.simplify(p.e == q.e) for p, q in zip(x, y)]
+            if any(z3.is_false(t) for t in conds):
+                r = False
+            else:
+                conds = [t for t in conds if not z3.is_true(t)]
+                r = z3.And(*conds) if conds else True
+        if c.endswith('eq'):
+            return r
+        return (not r) if isinstance(r, bool) else z3.Not(r)
+
+    def m_version_ord(self, ex, c, a):
+        """derived PartialOrd of the fieldless enum AutosarVersion: order of the discriminants (= order of declaration, ascending bits)"""
+        x, y = ex.deref(a[0]), ex.deref(a[1])
+        op = c.rsplit('::', 1)[1]
+        return z3.simplify({'lt': z3.ULT, 'le': z3.ULE, 'gt': z3.UGT, 'ge': z3.UGE}[op](x.e, y.e))
+
+    def m_opt_int_eq(self, ex, c, a):
+        x, y = ex.deref(a[0]), ex.deref(a[1])
+        if x.variant != y.variant:
+            r = False
+        elif x.variant == 'None':
+            r = True
+        else:
+            r = z3.simplify(x.fields[0].e == y.fields[0].e)
+            r = True if z3.is_true(r) else (False if z3.is_false(r) else r)
+        if c.endswith('eq'):
+            return r
+        return (not r) if isinstance(r, bool) else z3.Not(r)
+
+    def m_vec_usize_cmp(self, ex, c, a):
+        x, y = self._usize_items(ex, a[0]), self._usize_items(ex, a[1])
+        for p, q in zip(x, y):
+            if ex.decide(z3.ULT(p.e, q.e)):
+                return Agg('Ordering', 'Less', [])
+            if ex.decide(z3.UGT(p.e, q.e)):
+                return Agg('Ordering', 'Greater', [])
+        return Agg('Ordering', 'Less' if len(x) < len(y) else ('Greater' if len(x) > len(y) else 'Equal'), [])
+
+    def m_smallvec_index_mut(self, ex, c, a):
+        r = a[0]
+        v = ex.deref(r)
+        i = ex.concretize(a[1])
+        if i >= len(v.items):
+            raise Panic('index out of bounds')
+        return Ref(r.cell, list(r.path) + [('i', i)])
+
+    def m_range_next(self, ex, c, a):
+        r = ex.deref(a[0])
+        start, end = r.fields[0], r.fields[1]
+        if ex.decide(z3.ULT(start.e, end.e)):
+            r.fields[0] = I(start.e + 1, False, start.ty)
+            return some(start)
+        return NONE()
+
     def m_enumerate_ops(self, ex, c, a):
         it = ex.deref(a[0]) if isinstance(a[0], Ref) else a[0]
         sl = it.slice
@@ -1033,6 +1242,73 @@ class Models:
             if k is not None:
                 return Str(lit_bytes(str(k).encode()))
         raise Unsupported('to_string of a symbolic number (core::fmt is outside the engine)')
+
+    def _vecv(self, ex, v):
+        while isinstance(v, (Ref, ElemRef)):
+            v = ex.deref(v)
+        if not isinstance(v, VecV):
+            raise Unsupported(f'not a Vec: {v!r}')
+        return v
+
+    def m_strings_reverse(self, ex, c, a):
+        self._vecv(ex, a[0]).items.reverse()
+        return UNIT
+
+    def m_strings_join(self, ex, c, a):
+        v = self._vecv(ex, a[0])
+        sep = as_bytes_list(ex, a[1])
+        out = []
+        for i, s_ in enumerate(v.items):
+            if i:
+                out.extend(sep)
+            out.extend(as_bytes_list(ex, s_))
+        return Str(out)
+
+    def m_vec_into_iter_next(self, ex, c, a):
+        """Vec::into_iter() is the identity in the executor: the vector is consumed from the front"""
+        it = ex.deref(a[0])
+        if not isinstance(it, VecV):
+            raise Unsupported(f'IntoIter::next on {it!r}')
+        if not it.items:
+            return NONE()
+        return some(it.items.pop(0))
+
+    def m_vec_swap_remove(self, ex, c, a):
+        v = self._vecv(ex, a[0])
+        i = ex.concretize(a[1])
+        if i >= len(v.items):
+            raise Panic('swap_remove index out of bounds')
+        last = v.items.pop()
+        if i < len(v.items):
+            out = v.items[i]
+            v.items[i] = last
+            return out
+        return last
+
+    def m_vec_append(self, ex, c, a):
+        dst, src = ex.deref(a[0]), ex.deref(a[1])
+        dst.items.extend(src.items)
+        del src.items[:]
+        return UNIT
+
+    def m_vec_insert(self, ex, c, a):
+        v = ex.deref(a[0])
+        i = ex.concretize(a[1])
+        if i > len(v.items):
+            raise Panic('insertion index out of bounds')
+        v.items.insert(i, a[2])
+        return UNIT
+
+    def m_vec_remove(self, ex, c, a):
+        v = ex.deref(a[0])
+        i = ex.concretize(a[1])
+        if i >= len(v.items):
+            raise Panic('removal index out of bounds')
+        return v.items.pop(i)
+
+    def m_vec_clear(self, ex, c, a):
+        del ex.deref(a[0]).items[:]
+        return UNIT
 
     def m_vec_push(self, ex, c, a):
         v = ex.deref(a[0])
